@@ -625,6 +625,51 @@ func (e *Env) callExpr(n *ast.CallExpr) (Val, types.Type) {
 			panic("funcid: unknown function " + key)
 		}
 		return IntC(int64(e.x.ld.funcID(f))), intT
+	case "visited":
+		// visited(k): k has already been produced by the (innermost) map range loop
+		if len(e.st.iters) == 0 {
+			panic("visited(): no map iteration in scope")
+		}
+		v, _ := e.eval(n.Args[0])
+		return Select(e.st.iters[len(e.st.iters)-1].visited, e.x.scalar(v)), boolT
+	case "anykey", "allkeys":
+		// anykey(table, k, body): disjunction / conjunction over the keys of a constant table
+		mv, _ := e.eval(n.Args[0])
+		mt := e.x.scalar(mv)
+		if !mt.IsInt() || mt.I.Sign() >= 0 {
+			panic(name + ": not a constant table")
+		}
+		tbl := e.x.ld.constMapByID[int(-mt.I.Int64()-1000)]
+		id := n.Args[1].(*ast.Ident).Name
+		var parts []*T
+		for _, k := range tbl.keys {
+			sub := *e
+			sub.vars = copyVars(e.vars)
+			sub.types = copyTypes(e.types)
+			sub.vars[id] = k
+			if k.Sort == SStr {
+				sub.types[id] = types.Typ[types.String]
+			} else {
+				sub.types[id] = types.Typ[types.Int]
+			}
+			b, _ := sub.eval(n.Args[2])
+			parts = append(parts, e.x.scalar(b))
+		}
+		if name == "anykey" {
+			return Or(parts...), boolT
+		}
+		return And(parts...), boolT
+	case "maxkeylen":
+		mv, _ := e.eval(n.Args[0])
+		mt := e.x.scalar(mv)
+		tbl := e.x.ld.constMapByID[int(-mt.I.Int64()-1000)]
+		mx := 0
+		for _, k := range tbl.keys {
+			if s, ok := IsStrLit(k); ok && len(s) > mx {
+				mx = len(s)
+			}
+		}
+		return IntC(int64(mx)), intT
 	case "wrap64":
 		v, _ := e.eval(n.Args[0])
 		return UFdef("wrap64", SInt, e.x.scalar(v)), intT
